@@ -272,6 +272,8 @@ class C20(Prop):
             c["names"] = sorted(rng.sample(sorted(dd["vars"]), rng.randint(1, len(dd["vars"]))))
         if rng.random() < 0.25:
             c["glob"] = True                                     # a pattern instead of a list of names
+        elif rng.random() < 0.65:
+            c["file_order"] = rng.choice(["rev", "rot"])         # the list of names is not in alphabetical order
         d0 = dd["dims"][0]
         if c["how"] == "stack":
             if rng.random() < 0.25:
@@ -583,8 +585,15 @@ class C20(Prop):
                 ax = ds.axes[d0]
                 if ax.values.dtype.kind in "if":
                     ax[:] = ax.values + 100 * i
+        # an explicit list of files is read in the order GIVEN, whatever the names: the files of a list are numbered so
+        # that the list is not in alphabetical order (a glob pattern is expanded in sorted order, there the numbers ascend)
+        ks = list(range(len(dss)))
+        if not c.get("glob") and c.get("file_order") == "rev":
+            ks.reverse()
+        elif not c.get("glob") and c.get("file_order") == "rot":
+            ks = ks[1:] + ks[:1]
         for i, ds in enumerate(dss):
-            p = self.path(c, i); paths.append(p)
+            p = self.path(c, ks[i]); paths.append(p)
             ds.write_nc(p)
         names = c.get("names")
         arg = os.path.join(NCDIR, "c20_%d_%d_*.nc" % (os.getpid(), c["seed"])) if c.get("glob") else list(paths)
